@@ -40,7 +40,11 @@ def synthesize(name: str, bases: tuple[type, ...], **kwargs: Any) -> type:
     if SynthNode not in bases:
         bases = (*bases, SynthNode)
 
-    found = __registry.get(name)
+    # NOTE: a type named like something this module defines for itself
+    #   (SynthNode, BaseNode) must not take its place in the module
+    registry = __shadowed if name in __own else __registry
+
+    found = registry.get(name)
     if isinstance(found, type):
         # NOTE: a class of the same name synthesized for another grammar may have other bases
         if found.__bases__ == bases:
@@ -53,7 +57,7 @@ def synthesize(name: str, bases: tuple[type, ...], **kwargs: Any) -> type:
         ns.update(kwargs)
 
     newcls: type = types.new_class(name, bases, exec_body=build_body)
-    __registry[name] = newcls
+    registry[name] = newcls
 
     return newcls
 
@@ -64,3 +68,7 @@ def registered_synthetics() -> dict[str, SynthNode]:
         for name, value in __registry.items()
         if isinstance(value, SynthNode)
     }
+
+
+__shadowed: dict[str, Any] = {}
+__own: frozenset[str] = frozenset(__registry) | {'__own'}
